@@ -539,9 +539,10 @@ func aliasing(r *vh.Runner, c *vh.Case, rng *vh.Rand, sample bool) {
 	pt, ad := rng.Bytes(pl), rng.Bytes(al)
 	a0, _ := kravatte.NewSANSE(key)
 	want, _ := seal(a0, nil, pt, ad)
-	pattern := rng.Intn(8)
+	pattern := rng.Intn(10)
 	names := []string{"seal dst=pt[:0]", "open dst=ct[:0]", "seal dst=prefix+append", "seal dst overlaps ad", "open dst overlaps ad", "seal dst spare capacity shifted +32",
-		"seal in place behind a header", "open in place behind a header"}
+		"seal in place behind a header", "open in place behind a header",
+		"seal dst=prefix without spare capacity", "open dst=prefix without spare capacity"}
 	r.Count("evaluations", 1)
 	r.Count("alias_calls", 1)
 	r.Count("alias:"+names[pattern], 1)
@@ -621,6 +622,25 @@ func aliasing(r *vh.Runner, c *vh.Case, rng *vh.Rand, sample bool) {
 			fail("wrong-output", nil)
 		} else if !g.canariesOK() {
 			fail("canary", nil)
+		}
+	case 8, 9: // dst holds bytes of the caller and has no room: the result is a new slice that still starts with them
+		prefix := rng.Bytes(rng.Pick(1, 7, 32, 300))
+		dst := append(make([]byte, 0, len(prefix)+rng.Pick(0, 0, 1, 5)), prefix...)
+		a, _ := kravatte.NewSANSE(key)
+		if pattern == 8 {
+			out, pan := seal(a, dst, pt, ad)
+			if pan != "" {
+				fail("panic", map[string]any{"panic": pan})
+			} else if !bytes.Equal(out, append(append([]byte{}, prefix...), want...)) {
+				fail("wrong-output", map[string]any{"prefix": len(prefix), "cap": cap(dst)})
+			}
+		} else {
+			out, err, pan := open(a, dst, want, ad)
+			if pan != "" {
+				fail("panic", map[string]any{"panic": pan})
+			} else if err != nil || !bytes.Equal(out, append(append([]byte{}, prefix...), pt...)) {
+				fail("wrong-output", map[string]any{"err": fmt.Sprint(err), "prefix": len(prefix), "cap": cap(dst)})
+			}
 		}
 	case 6, 7: // one packet buffer: header (also the associated data), then the payload sealed / opened in place
 		h := rng.Pick(1, 8, 16, 100, 200)
